@@ -151,7 +151,7 @@ MODEB = {
     "DOO": [(12, {}), (25, {}), (14, {"delta": "user"})], "SOO": [(12, {}), (30, {}), (9, {"h_max": 3})],
     "StoSOO": [(12, {}), (30, {"k": 3}), (11, {"k": 1, "h_max": 3}), (20, {"k": None, "n": 400})],
     "SequOOL": [(12, {"n": 40}), (20, {"n": 40}), (9, {"n": 12}), (15, {"n": 20}), (24, {"n": 30})],
-    "StroquOOL": [(10, {"n": 200}), (14, {"n": 200}), (3, {"n": 100}), (30, {"n": 400})],
+    "StroquOOL": [(10, {"n": 200}), (14, {"n": 200}), (3, {"n": 100}), (30, {"n": 400}), (19, {"n": 500}), (40, {"n": 1000}), (60, {"n": 3000})],
     "Zooming": [(16, {"nu": 3, "rho": 0.5}), (45, {"nu": 3, "rho": 0.5}), (40, {"nu": 1, "rho": 0.9}), (29, {"nu": 1.6, "rho": 0.75}), (61, {"nu": 1, "rho": 0.9})],
     "POO": [(10, {"rhomax": 0.9}), (12, {"rhomax": 0.84}), (30, {"rhomax": 0.9}), (13, {"rhomax": 0.95}), (78, {"rhomax": 0.9, "rounds": 80}), (20, {"rhomax": 0.86, "rounds": 22, "base": "HCT"})],
     "GPO": [(9, {"rhomax": 0.9}), (14, {"rhomax": 0.9}), (48, {"rhomax": 0.5}), (21, {"rhomax": 0.8, "rounds": 129, "base": "HCT"})],
